@@ -296,6 +296,14 @@ pub fn check_lines_model(
                         st.nontrivial(qhash(case_hash, b'l', &[c.as_bytes(), m.as_bytes(), &l.to_le_bytes(), &[file.is_some() as u8]]));
                     }
                     on_query(c, m, l, &want, st);
+                    if known && file.is_none() && (!want.is_empty() || l % 7 == 0) && (want.len() <= 64 || l % 97 == 0) {
+                        st.evaluations += 1;
+                        match r.frame_adaptors(c, m, l, None) {
+                            Ok(n) if n == got.len() => {}
+                            Ok(n) => return Err(Fail::new("frame-iter-api", format!("{}: remap_frame({c:?},{m:?},{l}) yields {n} frames when re-created, {} before", r.name(), got.len())).with(json!({"impl": r.name(), "query": {"kind": "frame-line", "class": c, "method": m, "line": l}}))),
+                            Err(e) => return Err(Fail::new("frame-iter-api", format!("{}: iterator of remap_frame({c:?},{m:?},{l}): {e}", r.name())).with(json!({"impl": r.name(), "query": {"kind": "frame-line", "class": c, "method": m, "line": l}}))),
+                        }
+                    }
                     if !same_frames(&got, &want) {
                         return Err(Fail::new(
                             "model-frame-line",
@@ -336,6 +344,14 @@ pub fn check_params_model(r: &dyn Retracer, model: &Model, u: &Universe, case_ha
                 let got = r.frame_params(c, m, p);
                 if !want.is_empty() {
                     st.nontrivial(qhash(case_hash, b'p', &[c.as_bytes(), m.as_bytes(), p.as_bytes()]));
+                }
+                if ck && mk {
+                    st.evaluations += 1;
+                    match r.frame_adaptors(c, m, 0, Some(p.as_str())) {
+                        Ok(n) if n == got.len() => {}
+                        Ok(n) => return Err(Fail::new("frame-iter-api", format!("{}: remap_frame({c:?},{m:?},params {p:?}) yields {n} frames when re-created, {} before", r.name(), got.len()))),
+                        Err(e) => return Err(Fail::new("frame-iter-api", format!("{}: iterator of remap_frame({c:?},{m:?},params {p:?}): {e}", r.name())).with(json!({"impl": r.name(), "query": {"kind": "frame-params", "class": c, "method": m, "params": p}}))),
+                    }
                 }
                 if !same_frames(&got, &want) {
                     return Err(Fail::new(
